@@ -1,561 +1,295 @@
 /-
-  The orderly discipline: a serving call is started only when no other API call is in flight, and a
-  Bind/Listen that finds a serving call in flight only runs its check while the service is running (so it
-  is refused). Everything the environment, clients and faults can do stays allowed.  Under this discipline
-  the active call serves the listener stored in the service, its teardown closes exactly that listener,
-  and after it the shared state is the initial one.
+  Disciplines on API use (restrictions on WHEN an API call executes its first step — its start-up critical
+  section; everything the environment, clients and faults can do stays allowed, and so does spawning a call: a
+  call sitting at its first program counter has done nothing yet):
+
+    `Serial`   a SERVING call (Listen / DoListen) is started only when no other API call is in flight — or, for
+               Listen, while the service is running (then it is refused and changes nothing);
+    `Orderly`  `Serial`, and a stand-alone Bind is subject to the same rule.
+
+  What needs which (the general facts — the served listener is the stored one or closed, Shutdown makes every
+  serving call return, a timeout return releases the endpoint — need NO discipline: LifecycleServe.lean):
+    * `Serial`: at most one API call is in flight; a Shutdown that found the call in Accept makes it return nil
+      (a serving call started between the Shutdown and the call's `isRunning()` check would set `running` again
+      and the call would return the Accept error instead);  without timeouts and Shutdown serving never stops.
+    * `Orderly`: when the serving call returns, the shared state is the initial one (a stand-alone Bind between
+      the call's teardown and its return would leave a listener stored).
+  Since fix a1069ea the running check, the store of the listener and `running = true` are one critical section,
+  so there is no clause any more about what may happen INSIDE the start-up of a call.
 -/
-import VarlinkProofs.Lemmas.LifecycleProgress
+import VarlinkProofs.Lemmas.LifecycleServe
 namespace Varlink.Life
 
-/-- an API call is in flight: it has passed the running check of Bind (or is a DoListen) and has not returned -/
-def Call.active (c : Call) : Bool := !(c.pc == .bindCheck || c.pc == .returned)
+/-- an API call is in flight: it has executed its first step (the start-up critical section) and has not returned -/
+def Call.active (c : Call) : Bool := !(c.pc == .bindCheck || c.pc == .readLst || c.pc == .returned)
 
 def Idle (w : World) : Prop := ∀ (j : Nat) (cj : Call), w.calls[j]? = some cj → cj.active = false
 def OthersIdle (w : World) (k : Nat) : Prop :=
   ∀ (j : Nat) (cj : Call), w.calls[j]? = some cj → j ≠ k → cj.active = false
 
-/-- the discipline (a restriction on API use only) -/
-def Orderly (w : World) : Label → Prop
-  | .spawn kind _ _ => kind = .doListen → Idle w
-  | .call k => ∀ c, w.calls[k]? = some c → c.pc = .bindCheck → w.running = true ∨ OthersIdle w k
+/-- a serving call is started only when no other API call is in flight (a Listen also while running: refused) -/
+def Serial (w : World) : Label → Prop
+  | .call k => ∀ c, w.calls[k]? = some c →
+      (c.pc = .bindCheck → c.kind ≠ .bind → w.running = true ∨ OthersIdle w k) ∧ (c.pc = .readLst → OthersIdle w k)
   | _ => True
 
+/-- … and so is a stand-alone Bind -/
+def Orderly (w : World) : Label → Prop
+  | .call k => ∀ c, w.calls[k]? = some c →
+      (c.pc = .bindCheck → w.running = true ∨ OthersIdle w k) ∧ (c.pc = .readLst → OthersIdle w k)
+  | _ => True
+
+theorem Orderly.serial {w : World} {a : Label} (h : Orderly w a) : Serial w a := by
+  cases a <;> simp only [Serial] <;> try trivial
+  intro c hk
+  exact ⟨fun hp _ => (h c hk).1 hp, (h c hk).2⟩
+
+def SReach (w : World) : Prop := Reach Serial init w
 def OReach (w : World) : Prop := Reach Orderly init w
 
-def loopPc : Pc → Bool
-  | .loopCheck | .refresh | .inAccept | .gotConn | .counted | .errTimeout | .errOther => true
-  | _ => false
-
-/-- what holds for a call in a given world -/
-def prePc : Pc → Bool
-  | .parse | .listenSys | .store | .readLst | .setRunning => true
-  | _ => false
-
-def freshPc : Pc → Bool
-  | .bindCheck | .parse | .listenSys | .readLst => true
-  | _ => false
-
-structure Own (w : World) (c : Call) : Prop where
-  freshL : freshPc c.pc = true → c.l = none
-  preStopped : prePc c.pc = true → w.running = false
-  storeL : c.pc = .store → c.l.isSome = true
-  ready : c.pc = .setRunning → (c.kind = .listen → w.lst.isSome = true) ∧ (c.kind ≠ .listen → c.l = w.lst ∧ c.l.isSome = true)
-  loopL : loopPc c.pc = true → c.l = w.lst ∧ c.l.isSome = true
-  tearL : c.pc = .teardown → c.l = w.lst
-  afterL : c.pc = .waiting → w.lst = none ∧ w.running = false ∧ w.addrF = none
-  closedL : (c.pc = .waiting ∨ c.pc = .returned) → c.ret ≠ some .nil ∨ c.kind ≠ .bind → ∀ l, c.l = some l → Closed w l
-  retNone : c.ret.isSome = true → c.pc = .teardown ∨ c.pc = .waiting ∨ c.pc = .returned
-  timeoutL : c.ret = some .timeout → c.l.isSome = true
-
-structure OInv (w : World) : Prop where
-  one : ∀ (j j' : Nat) (cj cj' : Call), w.calls[j]? = some cj → w.calls[j']? = some cj' →
-      cj.active = true → cj'.active = true → j = j'
-  idleStopped : Idle w → w.running = false
-  own : ∀ (k : Nat) (c : Call), w.calls[k]? = some c → Own w c
-
-/-- an inactive call's facts only need closed listeners to stay closed -/
-theorem Own.inactive {w w' : World} {c : Call} (h : Own w c) (hi : c.active = false)
-    (hm : ∀ l, Closed w l → Closed w' l) : Own w' c := by
-  have hpc : c.pc = .bindCheck ∨ c.pc = .returned := by
-    simp only [Call.active, Bool.not_eq_false', Bool.or_eq_true, beq_iff_eq] at hi; exact hi
-  constructor
-  · exact h.freshL
-  · intro h'; rcases hpc with e | e <;> rw [e] at h' <;> simp [prePc] at h'
-  · intro h'; rcases hpc with e | e <;> rw [e] at h' <;> cases h'
-  · intro h'; rcases hpc with e | e <;> rw [e] at h' <;> cases h'
-  · intro h'; rcases hpc with e | e <;> rw [e] at h' <;> simp [loopPc] at h'
-  · intro h'; rcases hpc with e | e <;> rw [e] at h' <;> cases h'
-  · intro h'; rcases hpc with e | e <;> rw [e] at h' <;> cases h'
-  · intro h1 h2 l hl; exact hm l (h.closedL h1 h2 l hl)
-  · exact h.retNone
-  · exact h.timeoutL
-
-/-- … and with unchanged shared fields every fact survives -/
-theorem Own.same {w w' : World} {c : Call} (h : Own w c) (h1 : w'.running = w.running) (h2 : w'.lst = w.lst)
-    (h3 : w'.addrF = w.addrF) (hm : ∀ l, Closed w l → Closed w' l) : Own w' c := by
-  constructor
-  · exact h.freshL
-  · rw [h1]; exact h.preStopped
-  · exact h.storeL
-  · rw [h2]; exact h.ready
-  · rw [h2]; exact h.loopL
-  · rw [h2]; exact h.tearL
-  · rw [h1, h2, h3]; exact h.afterL
-  · intro a b l hl; exact hm l (h.closedL a b l hl)
-  · exact h.retNone
-  · exact h.timeoutL
-
-/-- **a call updates itself** (and possibly the shared fields — then it must be the only call in flight) -/
-theorem OInv.setCall {w w' : World} (h : OInv w) {k : Nat} {c c' : Call} (hk : w.calls[k]? = some c)
-    (hcalls : w'.calls = w.calls.set k c') (hm : ∀ l, Closed w l → Closed w' l)
-    (hshared : (w'.running = w.running ∧ w'.lst = w.lst ∧ w'.addrF = w.addrF) ∨ c.active = true ∨ OthersIdle w k)
-    (hact : c'.active = true → c.active = true ∨ OthersIdle w k)
-    (hown : Own w' c')
-    (hidle : c'.active = false → OthersIdle w k → w'.running = false) : OInv w' := by
-  have hlt := lt_of_getElem? hk
-  have look : ∀ (j : Nat) (cj : Call), w'.calls[j]? = some cj → (j = k ∧ cj = c') ∨ (j ≠ k ∧ w.calls[j]? = some cj) := by
-    intro j cj hj
-    rw [hcalls, List.getElem?_set] at hj
-    by_cases hkj : k = j
-    · subst hkj; simp only [hlt, if_true, Option.some.injEq] at hj; exact Or.inl ⟨rfl, hj.symm⟩
-    · simp only [hkj, if_false] at hj; exact Or.inr ⟨fun e => hkj e.symm, hj⟩
-  constructor
-  · intro j j' cj cj' hj hj' ha ha'
-    rcases look j cj hj with ⟨rfl, rfl⟩ | ⟨hne, hj0⟩ <;> rcases look j' cj' hj' with ⟨rfl, rfl⟩ | ⟨hne', hj0'⟩
-    · rfl
-    · rcases hact ha with hca | hoi
-      · exact h.one _ _ _ _ hk hj0' hca ha'
-      · rw [hoi j' cj' hj0' hne'] at ha'; cases ha'
-    · rcases hact ha' with hca | hoi
-      · exact h.one _ _ _ _ hj0 hk ha hca
-      · rw [hoi j cj hj0 hne] at ha; cases ha
-    · exact h.one _ _ _ _ hj0 hj0' ha ha'
-  · intro hid
-    have hk' : w'.calls[k]? = some c' := by rw [hcalls]; exact getElem?_set_eq' hk
-    apply hidle (hid k c' hk')
-    intro j cj hj hne
-    exact hid j cj (by rw [hcalls, getElem?_set_ne' (fun e => hne e.symm)]; exact hj)
-  · intro j cj hj
-    rcases look j cj hj with ⟨rfl, rfl⟩ | ⟨hne, hj0⟩
-    · exact hown
-    · have ho := h.own j cj hj0
-      rcases hshared with ⟨s1, s2, s3⟩ | hca | hoi
-      · exact ho.same s1 s2 s3 hm
-      · refine ho.inactive ?_ hm
-        cases hcj : cj.active with
-        | false => rfl
-        | true => exact absurd (h.one _ _ _ _ hj0 hk hcj hca) hne
-      · exact ho.inactive (hoi j cj hj0 hne) hm
-
-
-/-- wait-group and context bookkeeping does not matter -/
-theorem Own.control {w : World} {c c' : Call} (h : Own w c) (hs : sameControl c c') : Own w c' := by
-  obtain ⟨e1, e2, e3, e4, _, _, _, _⟩ := hs
-  constructor
-  · rw [e1, e2]; exact h.freshL
-  · rw [e1]; exact h.preStopped
-  · rw [e1, e2]; exact h.storeL
-  · rw [e1, e2, e4]; exact h.ready
-  · rw [e1, e2]; exact h.loopL
-  · rw [e1, e2]; exact h.tearL
-  · rw [e1]; exact h.afterL
-  · rw [e1, e2, e3, e4]; exact h.closedL
-  · rw [e1, e3]; exact h.retNone
-  · rw [e2, e3]; exact h.timeoutL
+theorem OReach.sreach {w : World} (h : OReach w) : SReach w := h.mono (fun _ _ => Orderly.serial)
 
 theorem sameControl_active {c c' : Call} (hs : sameControl c c') : c'.active = c.active := by
   simp [Call.active, hs.1]
 
-/-- the calls are untouched and so are the shared fields -/
-theorem OInv.sameCalls {w w' : World} (h : OInv w) (hc : w'.calls = w.calls) (h1 : w'.running = w.running)
-    (h2 : w'.lst = w.lst) (h3 : w'.addrF = w.addrF) (hm : ∀ l, Closed w l → Closed w' l) : OInv w' := by
-  constructor
-  · rw [hc]; exact h.one
-  · intro hid; rw [h1]; apply h.idleStopped; intro j cj hj; exact hid j cj (by rw [hc]; exact hj)
-  · intro k c hk; rw [hc] at hk; exact (h.own k c hk).same h1 h2 h3 hm
+/-! ### `Serial`: at most one API call in flight -/
 
-theorem OInv.shutdown {w : World} (h : OInv w) : OInv (stepShutdown w) := by
-  have hm : ∀ l, Closed w l → Closed (stepShutdown w) l := fun l hl => closed_step (a := .shutdown) rfl hl
-  constructor
-  · rw [stepShutdown_calls]; exact h.one
-  · intro _; exact stepShutdown_running w
-  · intro k c hk
-    rw [stepShutdown_calls] at hk
-    have ho := h.own k c hk
-    constructor
-    · exact ho.freshL
-    · intro _; exact stepShutdown_running w
-    · exact ho.storeL
-    · rw [stepShutdown_lst]; exact ho.ready
-    · rw [stepShutdown_lst]; exact ho.loopL
-    · rw [stepShutdown_lst]; exact ho.tearL
-    · intro hp
-      obtain ⟨a, _, c'⟩ := ho.afterL hp
-      exact ⟨by rw [stepShutdown_lst]; exact a, stepShutdown_running w, by rw [stepShutdown_addrF]; exact c'⟩
-    · intro a b l hl; exact hm l (ho.closedL a b l hl)
-    · exact ho.retNone
-    · exact ho.timeoutL
+def One (w : World) : Prop :=
+  ∀ (j j' : Nat) (cj cj' : Call), w.calls[j]? = some cj → w.calls[j']? = some cj' →
+    cj.active = true → cj'.active = true → j = j'
 
-theorem OInv.spawn {w : World} (h : OInv w) {c0 : Call} (hpc : c0.pc = .bindCheck ∨ (c0.pc = .readLst ∧ Idle w))
-    (hl : c0.l = none) (hr : c0.ret = none) : OInv { w with calls := w.calls ++ [c0] } := by
-  have look : ∀ (j : Nat) (cj : Call), (w.calls ++ [c0])[j]? = some cj → w.calls[j]? = some cj ∨ (j = w.calls.length ∧ cj = c0) := by
-    intro j cj hj
-    rw [List.getElem?_append] at hj
-    split at hj
-    · exact Or.inl hj
-    · right
-      cases hh : j - w.calls.length with
-      | zero => simp only [hh, List.getElem?_cons_zero, Option.some.injEq] at hj; exact ⟨by omega, hj.symm⟩
-      | succ n => simp [hh] at hj
-  have c0act : c0.active = true → Idle w := by
-    intro ha
-    rcases hpc with e | ⟨_, hi⟩
-    · simp [Call.active, e] at ha
-    · exact hi
-  constructor
-  · intro j j' cj cj' hj hj' ha ha'
-    rcases look j cj hj with hj0 | ⟨rfl, rfl⟩ <;> rcases look j' cj' hj' with hj0' | ⟨rfl, rfl⟩
-    · exact h.one _ _ _ _ hj0 hj0' ha ha'
-    · rw [c0act ha' j cj hj0] at ha; cases ha
-    · rw [c0act ha j' cj' hj0'] at ha'; cases ha'
-    · rfl
-  · intro hid
-    apply h.idleStopped
-    intro j cj hj
-    exact hid j cj (by simp only []; rw [List.getElem?_append_left (lt_of_getElem? hj)]; exact hj)
-  · intro j cj hj
-    rcases look j cj hj with hj0 | ⟨rfl, rfl⟩
-    · exact (h.own j cj hj0).same rfl rfl rfl (fun _ hl => hl)
-    · have hp : cj.pc = .bindCheck ∨ cj.pc = .readLst := by rcases hpc with e | ⟨e, _⟩ <;> simp [e]
-      constructor
-      · intro _; exact hl
-      · intro h'
-        rcases hpc with e | ⟨e, hi⟩
-        · rw [e] at h'; simp [prePc] at h'
-        · exact h.idleStopped hi
-      · intro h'; rcases hp with e | e <;> rw [e] at h' <;> cases h'
-      · intro h'; rcases hp with e | e <;> rw [e] at h' <;> cases h'
-      · intro h'; rcases hp with e | e <;> rw [e] at h' <;> simp [loopPc] at h'
-      · intro h'; rcases hp with e | e <;> rw [e] at h' <;> cases h'
-      · intro h'; rcases hp with e | e <;> rw [e] at h' <;> cases h'
-      · intro h'; rcases h' with h' | h' <;> rcases hp with e | e <;> rw [e] at h' <;> cases h'
-      · intro h'; rw [hr] at h'; cases h'
-      · intro h'; rw [hr] at h'; cases h'
+theorem set_look {w w' : World} {k : Nat} {c c' : Call} (hk : w.calls[k]? = some c)
+    (hcalls : w'.calls = w.calls.set k c') (j : Nat) (cj : Call) (hj : w'.calls[j]? = some cj) :
+    (j = k ∧ cj = c') ∨ (j ≠ k ∧ w.calls[j]? = some cj) := by
+  have hlt := lt_of_getElem? hk
+  rw [hcalls, List.getElem?_set] at hj
+  by_cases hkj : k = j
+  · subst hkj; simp only [hlt, if_true, Option.some.injEq] at hj; exact Or.inl ⟨rfl, hj.symm⟩
+  · simp only [hkj, if_false] at hj; exact Or.inr ⟨fun e => hkj e.symm, hj⟩
 
+theorem append_look {calls : List Call} {c0 : Call} (j : Nat) (cj : Call) (hj : (calls ++ [c0])[j]? = some cj) :
+    calls[j]? = some cj ∨ (j = calls.length ∧ cj = c0) := by
+  rw [List.getElem?_append] at hj
+  split at hj
+  · exact Or.inl hj
+  · right
+    cases hh : j - calls.length with
+    | zero => simp only [hh, List.getElem?_cons_zero, Option.some.injEq] at hj; exact ⟨by omega, hj.symm⟩
+    | succ n => simp [hh] at hj
 
-theorem closed_teardown {w : World} (hv : Valid w) {l : Nat} (hl : w.lst = some l) : Closed (teardownShared w) l := by
-  have hlt := hv.lst l hl
-  refine closed_of_isOpen_false (by simpa using hlt) ?_
-  simp only [teardownShared, hl, isOpen, closeL]
-  rw [List.getElem?_modify]
-  simp [hlt]
+theorem One.setCall {w w' : World} (h : One w) {k : Nat} {c c' : Call} (hk : w.calls[k]? = some c)
+    (hcalls : w'.calls = w.calls.set k c') (hact : c'.active = true → c.active = true ∨ OthersIdle w k) : One w' := by
+  intro j j' cj cj' hj hj' ha ha'
+  rcases set_look hk hcalls j cj hj with ⟨rfl, rfl⟩ | ⟨hne, hj0⟩ <;>
+    rcases set_look hk hcalls j' cj' hj' with ⟨rfl, rfl⟩ | ⟨hne', hj0'⟩
+  · rfl
+  · rcases hact ha with hca | hoi
+    · exact h _ _ _ _ hk hj0' hca ha'
+    · rw [hoi j' cj' hj0' hne'] at ha'; cases ha'
+  · rcases hact ha' with hca | hoi
+    · exact h _ _ _ _ hj0 hk ha hca
+    · rw [hoi j cj hj0 hne] at ha; cases ha
+  · exact h _ _ _ _ hj0 hj0' ha ha'
 
-theorem oinv_step {w w' : World} {a : Label} (h : OInv w) (hv : Valid w) (hs : step w a = some w')
-    (hord : Orderly w a) : OInv w' := by
-  have hm : ∀ l, Closed w l → Closed w' l := fun l hl => closed_step hs hl
-  have hrel := rel_of_step hs
-  clear hs
+theorem One.sameCalls {w w' : World} (h : One w) (hc : w'.calls = w.calls) : One w' := by
+  intro j j' cj cj' hj hj'; rw [hc] at hj hj'; exact h j j' cj cj' hj hj'
+
+theorem one_step {w w' : World} {a : Label} (h : One w) (hrel : Rel w a w') (hord : Serial w a) : One w' := by
   cases hrel
   case spawn kind tmo addr =>
-    refine h.spawn ?_ rfl rfl
-    cases kind
-    · exact Or.inl rfl
-    · exact Or.inr ⟨rfl, hord rfl⟩
-    · exact Or.inl rfl
+    intro j j' cj cj' hj hj' ha ha'
+    have hnew : ∀ (cj : Call), cj = { kind, tmo, addr, pc := firstPc kind } → cj.active = true → False := by
+      intro cj e ha; subst e; cases kind <;> simp [Call.active, firstPc] at ha
+    rcases append_look j cj hj with hj0 | ⟨_, e⟩ <;> rcases append_look j' cj' hj' with hj0' | ⟨_, e'⟩
+    · exact h _ _ _ _ hj0 hj0' ha ha'
+    · exact absurd ha' (fun h => hnew _ e' h)
+    · exact absurd ha (fun h => hnew _ e h)
+    · exact absurd ha (fun h => hnew _ e h)
   case bindRefused k c hk hpc hr =>
-    obtain ⟨o1, o2, o3, o4, o5, o6, o7, o8, o9, o10⟩ := h.own k c hk
-    refine h.setCall hk rfl hm (Or.inl ⟨rfl, rfl, rfl⟩) (fun ha => by simp [Call.active] at ha) ?_ ?_
-    · constructor <;> simp_all [freshPc, prePc, loopPc]
-    · intro _ hoi
-      exfalso
-      have : Idle w := by
-        intro j cj hj
-        by_cases hjk : j = k
-        · subst hjk; rw [hk] at hj; simp only [Option.some.injEq] at hj; subst hj; simp [Call.active, hpc]
-        · exact hoi j cj hj hjk
-      rw [h.idleStopped this] at hr; cases hr
-  case bindPass k c hk hpc hr =>
-    obtain ⟨o1, o2, o3, o4, o5, o6, o7, o8, o9, o10⟩ := h.own k c hk
-    refine h.setCall hk rfl hm (Or.inl ⟨rfl, rfl, rfl⟩) ?_ ?_ (fun ha => by simp [Call.active] at ha)
-    · intro _
-      rcases hord c hk hpc with h1 | h1
-      · rw [hr] at h1; cases h1
-      · exact Or.inr h1
-    · constructor <;> simp_all [freshPc, prePc, loopPc]
-  case parseBad k c hk hpc ha =>
-    obtain ⟨o1, o2, o3, o4, o5, o6, o7, o8, o9, o10⟩ := h.own k c hk
-    refine h.setCall hk rfl hm (Or.inl ⟨rfl, rfl, rfl⟩) (fun ha => by simp [Call.active] at ha) ?_ ?_
-    · constructor <;> simp_all [freshPc, prePc, loopPc]
-    · intro _ _; exact o2 (by simp [hpc, prePc])
-  case parseOk k c a hk hpc ha =>
-    obtain ⟨o1, o2, o3, o4, o5, o6, o7, o8, o9, o10⟩ := h.own k c hk
-    refine h.setCall hk rfl hm (Or.inr (Or.inl (by simp [Call.active, hpc])))
-      (fun _ => Or.inl (by simp [Call.active, hpc])) ?_ (fun ha => by simp [Call.active] at ha)
-    constructor <;> simp_all [freshPc, prePc, loopPc]
-    all_goals first
-      | (obtain ⟨e1, e2⟩ := o5; rw [e1] at e2; first | exact e2 | cases e2)
-      | (intro hb l hl; exact hm l (o8 hb l hl))
-      | (intro _ l hl; exact hcl l hl)
-      | skip
-  case listenBusy k c a hk hpc ha hu =>
-    obtain ⟨o1, o2, o3, o4, o5, o6, o7, o8, o9, o10⟩ := h.own k c hk
-    refine h.setCall hk rfl hm (Or.inl ⟨rfl, rfl, rfl⟩) (fun ha => by simp [Call.active] at ha) ?_ ?_
-    · constructor <;> simp_all [freshPc, prePc, loopPc]
-    · intro _ _; exact o2 (by simp [hpc, prePc])
-  case listenOk k c a hk hpc ha hu =>
-    obtain ⟨o1, o2, o3, o4, o5, o6, o7, o8, o9, o10⟩ := h.own k c hk
-    refine h.setCall hk rfl hm (Or.inl ⟨rfl, rfl, rfl⟩)
-      (fun _ => Or.inl (by simp [Call.active, hpc])) ?_ (fun ha => by simp [Call.active] at ha)
-    constructor <;> simp_all [freshPc, prePc, loopPc]
-    all_goals first
-      | (obtain ⟨e1, e2⟩ := o5; rw [e1] at e2; first | exact e2 | cases e2)
-      | (intro hb l hl; exact hm l (o8 hb l hl))
-      | (intro _ l hl; exact hcl l hl)
-      | skip
-  case storeBind k c hk hpc hkd =>
-    obtain ⟨o1, o2, o3, o4, o5, o6, o7, o8, o9, o10⟩ := h.own k c hk
-    refine h.setCall hk rfl hm (Or.inr (Or.inl (by simp [Call.active, hpc])))
-      (fun _ => Or.inl (by simp [Call.active, hpc])) ?_ ?_
-    · constructor <;> simp_all [freshPc, prePc, loopPc]
-    · intro _ _; exact o2 (by simp [hpc, prePc])
-  case storeServe k c hk hpc hkd =>
-    obtain ⟨o1, o2, o3, o4, o5, o6, o7, o8, o9, o10⟩ := h.own k c hk
-    refine h.setCall hk rfl hm (Or.inr (Or.inl (by simp [Call.active, hpc])))
-      (fun _ => Or.inl (by simp [Call.active, hpc])) ?_ (fun ha => by simp [Call.active] at ha)
-    constructor <;> simp_all [freshPc, prePc, loopPc]
-    all_goals first
-      | (obtain ⟨e1, e2⟩ := o5; rw [e1] at e2; first | exact e2 | cases e2)
-      | (intro hb l hl; exact hm l (o8 hb l hl))
-      | (intro _ l hl; exact hcl l hl)
-      | skip
+    exact h.setCall hk rfl (fun ha => by simp [Call.active] at ha)
+  case bindParseBad k c hk hpc hr ha =>
+    exact h.setCall hk rfl (fun ha => by simp [Call.active] at ha)
+  case bindBusy k c a hk hpc hr ha hu =>
+    exact h.setCall hk rfl (fun ha => by simp [Call.active] at ha)
+  case bindOk k c a hk hpc hr ha hu hkd =>
+    exact h.setCall hk rfl (fun ha => by simp [Call.active] at ha)
+  case listenOk k c a hk hpc hr ha hu hkd =>
+    refine h.setCall hk rfl (fun _ => Or.inr ?_)
+    rcases (hord c hk).1 hpc hkd with h1 | h1
+    · rw [hr] at h1; cases h1
+    · exact h1
   case readNone k c hk hpc hl =>
-    obtain ⟨o1, o2, o3, o4, o5, o6, o7, o8, o9, o10⟩ := h.own k c hk
-    refine h.setCall hk rfl hm (Or.inl ⟨rfl, rfl, rfl⟩)
-      (fun _ => Or.inl (by simp [Call.active, hpc])) ?_ (fun ha => by simp [Call.active] at ha)
-    constructor <;> simp_all [freshPc, prePc, loopPc]
-    all_goals first
-      | (obtain ⟨e1, e2⟩ := o5; rw [e1] at e2; first | exact e2 | cases e2)
-      | (intro hb l hl; exact hm l (o8 hb l hl))
-      | (intro _ l hl; exact hcl l hl)
-      | skip
+    exact h.setCall hk rfl (fun _ => Or.inr ((hord c hk).2 hpc))
   case readSome k c l hk hpc hl =>
-    obtain ⟨o1, o2, o3, o4, o5, o6, o7, o8, o9, o10⟩ := h.own k c hk
-    refine h.setCall hk rfl hm (Or.inl ⟨rfl, rfl, rfl⟩)
-      (fun _ => Or.inl (by simp [Call.active, hpc])) ?_ (fun ha => by simp [Call.active] at ha)
-    constructor <;> simp_all [freshPc, prePc, loopPc]
-    all_goals first
-      | (obtain ⟨e1, e2⟩ := o5; rw [e1] at e2; first | exact e2 | cases e2)
-      | (intro hb l hl; exact hm l (o8 hb l hl))
-      | (intro _ l hl; exact hcl l hl)
-      | skip
-  case setRunning k c hk hpc =>
-    obtain ⟨o1, o2, o3, o4, o5, o6, o7, o8, o9, o10⟩ := h.own k c hk
-    refine h.setCall hk rfl hm (Or.inr (Or.inl (by simp [Call.active, hpc])))
-      (fun _ => Or.inl (by simp [Call.active, hpc])) ?_ (fun ha => by simp [Call.active] at ha)
-    obtain ⟨r1, r2⟩ := o4 hpc
-    constructor <;> simp_all [freshPc, prePc, loopPc]
-    all_goals first
-      | (obtain ⟨e1, e2⟩ := o5; rw [e1] at e2; first | exact e2 | cases e2)
-      | (intro hb l hl; exact hm l (o8 hb l hl))
-      | (intro _ l hl; exact hcl l hl)
-      | skip
-    by_cases hkd : c.kind = .listen
-    · exact r1 hkd
-    · exact o4 hkd
+    exact h.setCall hk rfl (fun _ => Or.inr ((hord c hk).2 hpc))
   case loopGo k c hk hpc hr =>
-    obtain ⟨o1, o2, o3, o4, o5, o6, o7, o8, o9, o10⟩ := h.own k c hk
-    have hp' : (if c.tmo = true then Pc.refresh else Pc.inAccept) = .refresh ∨
-        (if c.tmo = true then Pc.refresh else Pc.inAccept) = .inAccept := by cases c.tmo <;> simp
-    have o5' := o5 (by simp [hpc, loopPc])
-    refine h.setCall hk rfl hm (Or.inl ⟨rfl, rfl, rfl⟩)
-      (fun _ => Or.inl (by simp [Call.active, hpc])) ?_ (fun ha => ?_)
-    · rcases hp' with e | e <;> (constructor <;> simp only [e] <;> simp [freshPc, prePc, loopPc, o5'])
-      all_goals first
-        | (rw [← o5'.1]; exact o5'.2)
-        | (intro _; rw [← o5'.1]; exact o5'.2)
-        | (cases hret : c.ret with
-           | none => rfl
-           | some r => exact absurd (o9 (by simp [hret])) (by simp [hpc]))
-    · rcases hp' with e | e <;> simp [Call.active, e] at ha
+    exact h.setCall hk rfl (fun _ => Or.inl (by simp [Call.active, hpc]))
   case loopStop k c hk hpc hr =>
-    obtain ⟨o1, o2, o3, o4, o5, o6, o7, o8, o9, o10⟩ := h.own k c hk
-    refine h.setCall hk rfl hm (Or.inl ⟨rfl, rfl, rfl⟩)
-      (fun _ => Or.inl (by simp [Call.active, hpc])) ?_ (fun ha => by simp [Call.active] at ha)
-    constructor <;> simp_all [freshPc, prePc, loopPc]
-    all_goals first
-      | (obtain ⟨e1, e2⟩ := o5; rw [e1] at e2; first | exact e2 | cases e2)
-      | (intro hb l hl; exact hm l (o8 hb l hl))
-      | (intro _ l hl; exact hcl l hl)
-      | skip
+    exact h.setCall hk rfl (fun _ => Or.inl (by simp [Call.active, hpc]))
   case refreshNil k c hk hpc hl =>
-    obtain ⟨o1, o2, o3, o4, o5, o6, o7, o8, o9, o10⟩ := h.own k c hk
-    refine h.setCall hk rfl hm (Or.inl ⟨rfl, rfl, rfl⟩)
-      (fun _ => Or.inl (by simp [Call.active, hpc])) ?_ (fun ha => by simp [Call.active] at ha)
-    constructor <;> simp_all [freshPc, prePc, loopPc]
-    all_goals first
-      | (obtain ⟨e1, e2⟩ := o5; rw [e1] at e2; first | exact e2 | cases e2)
-      | (intro hb l hl; exact hm l (o8 hb l hl))
-      | (intro _ l hl; exact hcl l hl)
-      | skip
+    exact h.setCall hk rfl (fun _ => Or.inl (by simp [Call.active, hpc]))
   case refreshOk k c f hk hpc hl ho =>
-    obtain ⟨o1, o2, o3, o4, o5, o6, o7, o8, o9, o10⟩ := h.own k c hk
-    refine h.setCall hk rfl hm (Or.inl ⟨rfl, rfl, rfl⟩)
-      (fun _ => Or.inl (by simp [Call.active, hpc])) ?_ (fun ha => by simp [Call.active] at ha)
-    constructor <;> simp_all [freshPc, prePc, loopPc]
-    all_goals first
-      | (obtain ⟨e1, e2⟩ := o5; rw [e1] at e2; first | exact e2 | cases e2)
-      | (intro hb l hl; exact hm l (o8 hb l hl))
-      | (intro _ l hl; exact hcl l hl)
-      | skip
+    exact h.setCall hk rfl (fun _ => Or.inl (by simp [Call.active, hpc]))
   case refreshClosed k c f hk hpc hl ho =>
-    obtain ⟨o1, o2, o3, o4, o5, o6, o7, o8, o9, o10⟩ := h.own k c hk
-    refine h.setCall hk rfl hm (Or.inl ⟨rfl, rfl, rfl⟩)
-      (fun _ => Or.inl (by simp [Call.active, hpc])) ?_ (fun ha => by simp [Call.active] at ha)
-    constructor <;> simp_all [freshPc, prePc, loopPc]
-    all_goals first
-      | (obtain ⟨e1, e2⟩ := o5; rw [e1] at e2; first | exact e2 | cases e2)
-      | (intro hb l hl; exact hm l (o8 hb l hl))
-      | (intro _ l hl; exact hcl l hl)
-      | skip
+    exact h.setCall hk rfl (fun _ => Or.inl (by simp [Call.active, hpc]))
   case acceptNil k c hk hpc hl =>
-    obtain ⟨o1, o2, o3, o4, o5, o6, o7, o8, o9, o10⟩ := h.own k c hk
-    refine h.setCall hk rfl hm (Or.inl ⟨rfl, rfl, rfl⟩)
-      (fun _ => Or.inl (by simp [Call.active, hpc])) ?_ (fun ha => by simp [Call.active] at ha)
-    constructor <;> simp_all [freshPc, prePc, loopPc]
-    all_goals first
-      | (obtain ⟨e1, e2⟩ := o5; rw [e1] at e2; first | exact e2 | cases e2)
-      | (intro hb l hl; exact hm l (o8 hb l hl))
-      | (intro _ l hl; exact hcl l hl)
-      | skip
+    exact h.setCall hk rfl (fun _ => Or.inl (by simp [Call.active, hpc]))
   case acceptConn k c l i hk hpc hl ho hf =>
-    obtain ⟨o1, o2, o3, o4, o5, o6, o7, o8, o9, o10⟩ := h.own k c hk
-    refine h.setCall hk rfl hm (Or.inl ⟨rfl, rfl, rfl⟩)
-      (fun _ => Or.inl (by simp [Call.active, hpc])) ?_ (fun ha => by simp [Call.active] at ha)
-    constructor <;> simp_all [freshPc, prePc, loopPc]
-    all_goals first
-      | (obtain ⟨e1, e2⟩ := o5; rw [e1] at e2; first | exact e2 | cases e2)
-      | (intro hb l hl; exact hm l (o8 hb l hl))
-      | (intro _ l hl; exact hcl l hl)
-      | skip
+    exact h.setCall hk rfl (fun _ => Or.inl (by simp [Call.active, hpc]))
   case acceptClosed k c l hk hpc hl ho =>
-    obtain ⟨o1, o2, o3, o4, o5, o6, o7, o8, o9, o10⟩ := h.own k c hk
-    refine h.setCall hk rfl hm (Or.inl ⟨rfl, rfl, rfl⟩)
-      (fun _ => Or.inl (by simp [Call.active, hpc])) ?_ (fun ha => by simp [Call.active] at ha)
-    constructor <;> simp_all [freshPc, prePc, loopPc]
-    all_goals first
-      | (obtain ⟨e1, e2⟩ := o5; rw [e1] at e2; first | exact e2 | cases e2)
-      | (intro hb l hl; exact hm l (o8 hb l hl))
-      | (intro _ l hl; exact hcl l hl)
-      | skip
+    exact h.setCall hk rfl (fun _ => Or.inl (by simp [Call.active, hpc]))
   case count k c hk hpc =>
-    obtain ⟨o1, o2, o3, o4, o5, o6, o7, o8, o9, o10⟩ := h.own k c hk
-    refine h.setCall hk rfl hm (Or.inl ⟨rfl, rfl, rfl⟩)
-      (fun _ => Or.inl (by simp [Call.active, hpc])) ?_ (fun ha => by simp [Call.active] at ha)
-    constructor <;> simp_all [freshPc, prePc, loopPc]
-    all_goals first
-      | (obtain ⟨e1, e2⟩ := o5; rw [e1] at e2; first | exact e2 | cases e2)
-      | (intro hb l hl; exact hm l (o8 hb l hl))
-      | (intro _ l hl; exact hcl l hl)
-      | skip
+    exact h.setCall hk rfl (fun _ => Or.inl (by simp [Call.active, hpc]))
   case startHandler k c hk hpc =>
-    obtain ⟨o1, o2, o3, o4, o5, o6, o7, o8, o9, o10⟩ := h.own k c hk
-    refine h.setCall hk rfl hm (Or.inl ⟨rfl, rfl, rfl⟩)
-      (fun _ => Or.inl (by simp [Call.active, hpc])) ?_ (fun ha => by simp [Call.active] at ha)
-    constructor <;> simp_all [freshPc, prePc, loopPc]
-    all_goals first
-      | (obtain ⟨e1, e2⟩ := o5; rw [e1] at e2; first | exact e2 | cases e2)
-      | (intro hb l hl; exact hm l (o8 hb l hl))
-      | (intro _ l hl; exact hcl l hl)
-      | skip
+    exact h.setCall hk rfl (fun _ => Or.inl (by simp [Call.active, hpc]))
   case timeoutIdle k c hk hpc h0 =>
-    obtain ⟨o1, o2, o3, o4, o5, o6, o7, o8, o9, o10⟩ := h.own k c hk
-    refine h.setCall hk rfl hm (Or.inl ⟨rfl, rfl, rfl⟩)
-      (fun _ => Or.inl (by simp [Call.active, hpc])) ?_ (fun ha => by simp [Call.active] at ha)
-    constructor <;> simp_all [freshPc, prePc, loopPc]
-    all_goals first
-      | (obtain ⟨e1, e2⟩ := o5; rw [e1] at e2; first | exact e2 | cases e2)
-      | (intro hb l hl; exact hm l (o8 hb l hl))
-      | (intro _ l hl; exact hcl l hl)
-      | skip
+    exact h.setCall hk rfl (fun _ => Or.inl (by simp [Call.active, hpc]))
   case timeoutBusy k c hk hpc h0 =>
-    obtain ⟨o1, o2, o3, o4, o5, o6, o7, o8, o9, o10⟩ := h.own k c hk
-    refine h.setCall hk rfl hm (Or.inl ⟨rfl, rfl, rfl⟩)
-      (fun _ => Or.inl (by simp [Call.active, hpc])) ?_ (fun ha => by simp [Call.active] at ha)
-    constructor <;> simp_all [freshPc, prePc, loopPc]
-    all_goals first
-      | (obtain ⟨e1, e2⟩ := o5; rw [e1] at e2; first | exact e2 | cases e2)
-      | (intro hb l hl; exact hm l (o8 hb l hl))
-      | (intro _ l hl; exact hcl l hl)
-      | skip
+    exact h.setCall hk rfl (fun _ => Or.inl (by simp [Call.active, hpc]))
   case errRunning k c hk hpc hr =>
-    obtain ⟨o1, o2, o3, o4, o5, o6, o7, o8, o9, o10⟩ := h.own k c hk
-    refine h.setCall hk rfl hm (Or.inl ⟨rfl, rfl, rfl⟩)
-      (fun _ => Or.inl (by simp [Call.active, hpc])) ?_ (fun ha => by simp [Call.active] at ha)
-    constructor <;> simp_all [freshPc, prePc, loopPc]
-    all_goals first
-      | (obtain ⟨e1, e2⟩ := o5; rw [e1] at e2; first | exact e2 | cases e2)
-      | (intro hb l hl; exact hm l (o8 hb l hl))
-      | (intro _ l hl; exact hcl l hl)
-      | skip
+    exact h.setCall hk rfl (fun _ => Or.inl (by simp [Call.active, hpc]))
   case errStopped k c hk hpc hr =>
-    obtain ⟨o1, o2, o3, o4, o5, o6, o7, o8, o9, o10⟩ := h.own k c hk
-    refine h.setCall hk rfl hm (Or.inl ⟨rfl, rfl, rfl⟩)
-      (fun _ => Or.inl (by simp [Call.active, hpc])) ?_ (fun ha => by simp [Call.active] at ha)
-    constructor <;> simp_all [freshPc, prePc, loopPc]
-    all_goals first
-      | (obtain ⟨e1, e2⟩ := o5; rw [e1] at e2; first | exact e2 | cases e2)
-      | (intro hb l hl; exact hm l (o8 hb l hl))
-      | (intro _ l hl; exact hcl l hl)
-      | skip
+    exact h.setCall hk rfl (fun _ => Or.inl (by simp [Call.active, hpc]))
   case teardown k c hk hpc =>
-    obtain ⟨o1, o2, o3, o4, o5, o6, o7, o8, o9, o10⟩ := h.own k c hk
-    have hk' : (teardownShared w).calls[k]? = some c := by rw [teardownShared_calls]; exact hk
-    refine h.setCall (c' := { c with pc := .waiting }) hk (by simp only [setCall_calls, teardownShared_calls]) hm
-      (Or.inr (Or.inl (by simp [Call.active, hpc])))
-      (fun _ => Or.inl (by simp [Call.active, hpc])) ?_ (fun ha => by simp [Call.active] at ha)
-    have hcl : ∀ l, c.l = some l → Closed (teardownShared w) l := by
-      intro l hl
-      exact closed_teardown hv (by rw [← o6 hpc]; exact hl)
-    constructor <;> simp_all [freshPc, prePc, loopPc]
-    all_goals first
-      | (obtain ⟨e1, e2⟩ := o5; rw [e1] at e2; first | exact e2 | cases e2)
-      | (intro hb l hl; exact hm l (o8 hb l hl))
-      | (intro _ l hl; exact hcl l hl)
-      | skip
+    exact h.setCall (c' := { c with pc := .waiting }) hk (by simp only [setCall_calls, teardownShared_calls])
+      (fun _ => Or.inl (by simp [Call.active, hpc]))
   case waitDone k c hk hpc hwg =>
-    obtain ⟨o1, o2, o3, o4, o5, o6, o7, o8, o9, o10⟩ := h.own k c hk
-    refine h.setCall hk rfl hm (Or.inl ⟨rfl, rfl, rfl⟩)
-      (fun ha => by simp [Call.active] at ha) ?_ (fun _ _ => (o7 hpc).2.1)
-    constructor <;> simp_all [freshPc, prePc, loopPc]
-    all_goals first
-      | (obtain ⟨e1, e2⟩ := o5; rw [e1] at e2; first | exact e2 | cases e2)
-      | (intro hb l hl; exact hm l (o8 hb l hl))
-      | (intro _ l hl; exact hcl l hl)
-      | skip
+    exact h.setCall hk rfl (fun ha => by simp [Call.active] at ha)
   case expire k c l hk hpc hl ho harm =>
-    obtain ⟨o1, o2, o3, o4, o5, o6, o7, o8, o9, o10⟩ := h.own k c hk
-    refine h.setCall hk rfl hm (Or.inl ⟨rfl, rfl, rfl⟩)
-      (fun _ => Or.inl (by simp [Call.active, hpc])) ?_ (fun ha => by simp [Call.active] at ha)
-    constructor <;> simp_all [freshPc, prePc, loopPc]
-    all_goals first
-      | (obtain ⟨e1, e2⟩ := o5; rw [e1] at e2; first | exact e2 | cases e2)
-      | (intro hb l hl; exact hm l (o8 hb l hl))
-      | (intro _ l hl; exact hcl l hl)
-      | skip
+    exact h.setCall hk rfl (fun _ => Or.inl (by simp [Call.active, hpc]))
   case wgDone i x co hi hp hco hwg =>
     have hs : sameControl co { co with wg := co.wg - 1 } := ⟨rfl, rfl, rfl, rfl, rfl, rfl, rfl, rfl⟩
-    refine h.setCall hco rfl hm (Or.inl ⟨rfl, rfl, rfl⟩) (fun ha => Or.inl (by rw [← sameControl_active hs]; exact ha))
-      ((h.own _ co hco).control hs |>.same rfl rfl rfl hm) ?_
-    intro ha hoi
-    apply h.idleStopped
-    intro j cj hj
-    by_cases hjk : j = x.owner
-    · subst hjk; rw [hco] at hj; simp only [Option.some.injEq] at hj; subst hj
-      rw [← sameControl_active hs]; exact ha
-    · exact hoi j cj hj hjk
+    exact h.setCall hco rfl (fun ha => Or.inl (by rw [← sameControl_active hs]; exact ha))
   case ctxCancel k c hk =>
     have hs : sameControl c { c with ctxDone := true } := ⟨rfl, rfl, rfl, rfl, rfl, rfl, rfl, rfl⟩
-    refine h.setCall hk rfl hm (Or.inl ⟨rfl, rfl, rfl⟩) (fun ha => Or.inl (by rw [← sameControl_active hs]; exact ha))
-      ((h.own _ c hk).control hs |>.same rfl rfl rfl hm) ?_
-    intro ha hoi
-    apply h.idleStopped
-    intro j cj hj
-    by_cases hjk : j = k
-    · subst hjk; rw [hk] at hj; simp only [Option.some.injEq] at hj; subst hj
-      rw [← sameControl_active hs]; exact ha
-    · exact hoi j cj hj hjk
-  case shutdown => exact h.shutdown
-  all_goals exact h.sameCalls rfl rfl rfl rfl hm
+    exact h.setCall hk rfl (fun ha => Or.inl (by rw [← sameControl_active hs]; exact ha))
+  case shutdown => exact h.sameCalls (stepShutdown_calls w)
+  all_goals exact h.sameCalls rfl
 
-theorem oinv_init : OInv init :=
-  ⟨fun j j' cj cj' hj => by simp [init] at hj, fun _ => rfl, fun k c hk => by simp [init] at hk⟩
+theorem one_init : One init := fun j j' cj cj' hj => by simp [init] at hj
 
-/-- in every state reachable under the orderly discipline: the accounting invariant, valid listener
-    indices and the orderly invariant -/
-theorem oreach_invs {w : World} (h : OReach w) : Inv w ∧ Valid w ∧ OInv w := by
-  refine Reach.induct (fun w => Inv w ∧ Valid w ∧ OInv w) ⟨inv_init, valid_init, oinv_init⟩ ?_ h
-  intro w a w' _ ⟨hi, hv, ho⟩ hord hs
-  exact ⟨inv_step hi hs, valid_step (rel_of_step hs) hv, oinv_step ho hv hs hord⟩
+theorem sreach_one {w : World} (h : SReach w) : One w :=
+  Reach.induct One one_init (fun _ _ _ _ hi hp hs => one_step hi (rel_of_step hs) hp) h
+
+/-- two different calls in flight: not a state of serial use -/
+theorem not_one_of_two_active {w : World} (j j' : Nat) (hne : j ≠ j')
+    (h : (w.calls[j]?).map Call.active = some true) (h' : (w.calls[j']?).map Call.active = some true) : ¬ One w := by
+  intro ho
+  cases hj : w.calls[j]? with
+  | none => simp [hj] at h
+  | some cj =>
+    cases hj' : w.calls[j']? with
+    | none => simp [hj'] at h'
+    | some cj' =>
+      simp only [hj, Option.map_some, Option.some.injEq] at h
+      simp only [hj', Option.map_some, Option.some.injEq] at h'
+      exact hne (ho j j' cj cj' hj hj' h h')
+
+/-! ### `Orderly`: while a serving call waits for its handlers the shared state is the initial one -/
+
+def AfterOk (w : World) : Prop :=
+  ∀ (k : Nat) (c : Call), w.calls[k]? = some c → c.pc = .waiting → w.lst = none ∧ w.running = false ∧ w.addrF = none
+
+theorem AfterOk.setCall {w w' : World} (h : AfterOk w) {k : Nat} {c c' : Call} (hk : w.calls[k]? = some c)
+    (hcalls : w'.calls = w.calls.set k c')
+    (hshared : (w'.lst = w.lst ∧ w'.running = w.running ∧ w'.addrF = w.addrF) ∨
+               (w'.lst = none ∧ w'.running = false ∧ w'.addrF = none) ∨ OthersIdle w k)
+    (hown : c'.pc = .waiting → w'.lst = none ∧ w'.running = false ∧ w'.addrF = none) : AfterOk w' := by
+  intro j cj hj hp
+  rcases set_look hk hcalls j cj hj with ⟨rfl, rfl⟩ | ⟨hne, hj0⟩
+  · exact hown hp
+  · rcases hshared with ⟨e1, e2, e3⟩ | hn | hoi
+    · rw [e1, e2, e3]; exact h j cj hj0 hp
+    · exact hn
+    · have := hoi j cj hj0 hne
+      simp [Call.active, hp] at this
+
+theorem afterOk_step {w w' : World} {a : Label} (h : AfterOk w) (hrel : Rel w a w') (hord : Orderly w a) :
+    AfterOk w' := by
+  cases hrel
+  case spawn kind tmo addr =>
+    intro j cj hj hp
+    rcases append_look j cj hj with hj0 | ⟨_, e⟩
+    · exact h j cj hj0 hp
+    · subst e; cases kind <;> simp [firstPc] at hp
+  case bindRefused k c hk hpc hr =>
+    exact h.setCall hk rfl (Or.inl ⟨rfl, rfl, rfl⟩) (fun hp => by cases hp)
+  case bindParseBad k c hk hpc hr ha =>
+    exact h.setCall hk rfl (Or.inl ⟨rfl, rfl, rfl⟩) (fun hp => by cases hp)
+  case bindBusy k c a hk hpc hr ha hu =>
+    refine h.setCall hk rfl (Or.inr (Or.inr ?_)) (fun hp => by cases hp)
+    rcases (hord c hk).1 hpc with h1 | h1
+    · rw [hr] at h1; cases h1
+    · exact h1
+  case bindOk k c a hk hpc hr ha hu hkd =>
+    refine h.setCall hk rfl (Or.inr (Or.inr ?_)) (fun hp => by cases hp)
+    rcases (hord c hk).1 hpc with h1 | h1
+    · rw [hr] at h1; cases h1
+    · exact h1
+  case listenOk k c a hk hpc hr ha hu hkd =>
+    refine h.setCall hk rfl (Or.inr (Or.inr ?_)) (fun hp => by cases hp)
+    rcases (hord c hk).1 hpc with h1 | h1
+    · rw [hr] at h1; cases h1
+    · exact h1
+  case readNone k c hk hpc hl =>
+    exact h.setCall hk rfl (Or.inl ⟨rfl, rfl, rfl⟩) (fun hp => by cases hp)
+  case readSome k c l hk hpc hl =>
+    exact h.setCall hk rfl (Or.inr (Or.inr ((hord c hk).2 hpc))) (fun hp => by cases hp)
+  case loopGo k c hk hpc hr =>
+    exact h.setCall hk rfl (Or.inl ⟨rfl, rfl, rfl⟩) (fun hp => by split at hp <;> cases hp)
+  case loopStop k c hk hpc hr =>
+    exact h.setCall hk rfl (Or.inl ⟨rfl, rfl, rfl⟩) (fun hp => by cases hp)
+  case refreshNil k c hk hpc hl =>
+    exact h.setCall hk rfl (Or.inl ⟨rfl, rfl, rfl⟩) (fun hp => by cases hp)
+  case refreshOk k c f hk hpc hl ho =>
+    exact h.setCall hk rfl (Or.inl ⟨rfl, rfl, rfl⟩) (fun hp => by cases hp)
+  case refreshClosed k c f hk hpc hl ho =>
+    exact h.setCall hk rfl (Or.inl ⟨rfl, rfl, rfl⟩) (fun hp => by cases hp)
+  case acceptNil k c hk hpc hl =>
+    exact h.setCall hk rfl (Or.inl ⟨rfl, rfl, rfl⟩) (fun hp => by cases hp)
+  case acceptConn k c l i hk hpc hl ho hf =>
+    exact h.setCall hk rfl (Or.inl ⟨rfl, rfl, rfl⟩) (fun hp => by cases hp)
+  case acceptClosed k c l hk hpc hl ho =>
+    exact h.setCall hk rfl (Or.inl ⟨rfl, rfl, rfl⟩) (fun hp => by cases hp)
+  case count k c hk hpc =>
+    exact h.setCall hk rfl (Or.inl ⟨rfl, rfl, rfl⟩) (fun hp => by cases hp)
+  case startHandler k c hk hpc =>
+    exact h.setCall hk rfl (Or.inl ⟨rfl, rfl, rfl⟩) (fun hp => by cases hp)
+  case timeoutIdle k c hk hpc h0 =>
+    exact h.setCall hk rfl (Or.inl ⟨rfl, rfl, rfl⟩) (fun hp => by cases hp)
+  case timeoutBusy k c hk hpc h0 =>
+    exact h.setCall hk rfl (Or.inl ⟨rfl, rfl, rfl⟩) (fun hp => by cases hp)
+  case errRunning k c hk hpc hr =>
+    exact h.setCall hk rfl (Or.inl ⟨rfl, rfl, rfl⟩) (fun hp => by cases hp)
+  case errStopped k c hk hpc hr =>
+    exact h.setCall hk rfl (Or.inl ⟨rfl, rfl, rfl⟩) (fun hp => by cases hp)
+  case teardown k c hk hpc =>
+    exact h.setCall (c' := { c with pc := .waiting }) hk (by simp only [setCall_calls, teardownShared_calls])
+      (Or.inr (Or.inl ⟨rfl, rfl, rfl⟩)) (fun _ => ⟨rfl, rfl, rfl⟩)
+  case waitDone k c hk hpc hwg =>
+    exact h.setCall hk rfl (Or.inl ⟨rfl, rfl, rfl⟩) (fun hp => by cases hp)
+  case expire k c l hk hpc hl ho harm =>
+    exact h.setCall hk rfl (Or.inl ⟨rfl, rfl, rfl⟩) (fun hp => by cases hp)
+  case wgDone i x co hi hp hco hwg =>
+    exact h.setCall hco rfl (Or.inl ⟨rfl, rfl, rfl⟩) (fun hp' => h _ co hco hp')
+  case ctxCancel k c hk =>
+    exact h.setCall hk rfl (Or.inl ⟨rfl, rfl, rfl⟩) (fun hp' => h k c hk hp')
+  case shutdown =>
+    intro j cj hj hp
+    rw [stepShutdown_calls] at hj
+    obtain ⟨a1, _, a3⟩ := h j cj hj hp
+    exact ⟨by rw [stepShutdown_lst]; exact a1, stepShutdown_running w, by rw [stepShutdown_addrF]; exact a3⟩
+  all_goals exact fun j cj hj hp => h j cj hj hp
+
+theorem afterOk_init : AfterOk init := fun k c hk => by simp [init] at hk
+
+theorem oreach_after {w : World} (h : OReach w) : AfterOk w :=
+  Reach.induct AfterOk afterOk_init (fun _ _ _ _ hi hp hs => afterOk_step hi (rel_of_step hs) hp) h
+
+/-- in every state reachable under the orderly discipline: the accounting invariant, valid listener indices, the
+    serving facts, at most one call in flight, and the initial shared state while a serving call waits -/
+theorem oreach_invs {w : World} (h : OReach w) : Inv w ∧ Valid w ∧ Srv w ∧ One w ∧ AfterOk w :=
+  let ⟨a, b, c⟩ := reach_invs h
+  ⟨a, b, c, sreach_one h.sreach, oreach_after h⟩
 
 end Varlink.Life
